@@ -159,7 +159,8 @@ let hist_model (e : env) kind cap (calls : (int * int * int * n list) list) : st
                  q_version = rq.q_version; q_hdrs = List.map stale_slot rq.q_hdrs } in
       (match last with
        | None -> "NA"
-       | Some c -> let ((st, rq'), _) = call rq c in obs_line kind false (obs_of_request ((st, rq'), [])))
+       | Some c -> let ((st, rq'), _) = call rq c in
+           obs_line kind false (obs_of_request ((st, rq'), [])) ^ Printf.sprintf " ;start=%d" (List.length rq.q_hdrs))
   | _ ->
       let call rp (entry, cfg, ucap, buf) =
         response_call e (entry_of_int entry) (config_of_bits cfg) buf (initial_array ucap) rp in
@@ -169,7 +170,8 @@ let hist_model (e : env) kind cap (calls : (int * int * int * n list) list) : st
                  p_hdrs = List.map stale_slot rp.p_hdrs } in
       (match last with
        | None -> "NA"
-       | Some c -> let ((st, rp'), _) = call rp c in obs_line kind false (obs_of_response ((st, rp'), [])))
+       | Some c -> let ((st, rp'), _) = call rp c in
+           obs_line kind false (obs_of_response ((st, rp'), [])) ^ Printf.sprintf " ;start=%d" (List.length rp.p_hdrs))
 
 let scan_model (w : int) backend cls (buf : n list) : string =
   let be = match backend with 0 -> None | 1 -> Some BAvx2 | 2 -> Some BSse42 | _ -> Some BSwar in
@@ -329,7 +331,7 @@ let oracle_line (case : string) (obs : string) : string =
             let spb = kind <> "h" && cfgbits land 16 <> 0 in
             let fold = kind = "p" && cfgbits land 2 <> 0 in
             if not (check_C01 bufl o) then fail "C01";
-            if not (check_C03 k spb bufl o) then fail "C03";
+            if not (check_C03 k spb fold bufl o) then fail "C03";
             if not (check_C04 k bufl o) then fail "C04";
             if not (check_C05 k fold bufl o) then fail "C05";
             if not (check_C17 (entry >= 2 || kind = "h") (nat_of_int cap) o) then fail "C17"
